@@ -16,13 +16,11 @@ let to_op (x : Sx.t) : CheckedArith.arith_op =
 let of_checked_res (r : CheckedArith.checked_res) : Sx.t =
   match r with
   | CheckedArith.RVal (v, o) -> L [A "val"; of_z v; of_bool o]
-  | CheckedArith.RPanic -> A "panic"
 
 let of_vec_res (r : CheckedArith.vec_res) : Sx.t =
   match r with
   | CheckedArith.VOk vs -> L [A "ok"; of_list of_z vs]
   | CheckedArith.VOverflow -> A "overflow"
-  | CheckedArith.VPanic -> A "panic"
 
 let to_pair (x : Sx.t) = match x with L [a; b] -> (to_z a, to_z b) | _ -> bad "pair"
 
@@ -54,8 +52,7 @@ let rec to_aexpr (x : Sx.t) : CheckedArith.aexpr =
 (* whole-column evaluation of an expression: the query fails if any row overflows *)
 let eval_column (rows : BinNums.coq_Z option list list) (e : CheckedArith.aexpr) : Sx.t =
   let res = List.map (fun row -> CheckedArith.eval_aexpr row e) rows in
-  if List.exists (fun r -> r = CheckedArith.CPanic) res then A "panic"
-  else if List.exists (fun r -> r = CheckedArith.COverflow) res then L [A "err"; A "overflow"]
+  if List.exists (fun r -> r = CheckedArith.COverflow) res then L [A "err"; A "overflow"]
   else
     L [A "ok";
        L (List.map (function CheckedArith.COk v -> of_opt of_z v | _ -> A "?") res)]
@@ -212,7 +209,7 @@ let run (entry : string) (inp : Sx.t) : Sx.t =
   | "append_limit", L [limit; l; r] ->
       of_list of_z (SortKernels.append_limit (to_n limit) (to_list to_z l) (to_list to_z r))
   | "final_slice", L [limit; offset; rows] ->
-      of_opt (of_list of_z) (SortKernels.final_slice (to_n limit) (to_n offset) (to_list to_z rows))
+      of_list of_z (SortKernels.final_slice (to_n limit) (to_n offset) (to_list to_z rows))
   | "merge_deduplicate", L [c; l; r] ->
       let (ks, ops) = MergeKernels.merge_deduplicate (cmp_eq_of c) BinInt.Z.eqb (to_list to_z l) (to_list to_z r) in
       L [of_list of_z ks; of_list of_mop ops]
